@@ -17,6 +17,7 @@ CLAIMED = {
     "C09": ("Lane-aware witness placement: a distinguished addend/extreme at every lane and every lane pair over several backgrounds, plus the full lattice through every lane, for every batch size 2..64 and each architecture; a skipped lane gives 0, a doubled lane gives 2; float sums exact where representable, otherwise within the (n-1)-rounding bound; generic reduce(f) wherever the library accepts it (decided by trial compilation).", "6 C09", "xvdrive"),
     "C07": ("Every lane value (8/16-bit exhaustive) x every shift/rotate count in [0,bits), scalar- and per-lane-count forms, at every lane offset and on each of the 22 architectures, compared lane-exactly with an unsigned-word reference model.", "6 C07", "xvdrive"),
     "C08": ("Every k/2 and neighbours, windows at the magic magnitudes, every binade x mantissa patterns (thorough: all 2^32 float32 patterns), on each architecture, compared as numbers with glibc's rounding functions; integer-returning forms whenever the result fits.", "6 C08", "xvdrive"),
+    "C17": ("Every scalar overload of the list is executed on the full operand spaces of C01/C02/C03/C06/C07/C08 (non-NaN operands) under each architecture's compile flags and judged by the same reference model as the batch lanes, so scalar and batch agree wherever the model is single-valued; clip and integer-exponent pow are checked in both forms against one shared model.", "6 C17", "xvdrive"),
 }
 
 REASON_WIP = "check not built yet in this round (design in DESIGN.md section 6); not claimed until its explorer has run to completion on the unchanged tree"
